@@ -11,7 +11,7 @@ RULE_KEYWORDS = ["if", "then", "is", "and", "or", "with"]
 HEDGES = ["not", "very", "somewhat", "extremely", "seldom", "any"]
 IN_VARS = {"Ambient": ["DARK", "MEDIUM", "BRIGHT"], "Speed": ["SLOW", "FAST"]}
 OUT_VARS = {"Power": ["LOW", "HIGH"], "Fan": ["OFF", "ON"]}
-UNKNOWN = ["Foo", "bar_9", "Ambiente", "dark", "Q", "Powe", "veryy", "x", "pi", "min"]
+UNKNOWN = ["Foo", "bar_9", "Ambiente", "dark", "Q", "Powe", "veryy", "x", "pi", "min", "Bare", "Bare is any"]
 NUMBERS = ["0.5", "1.0", "0", "1e-3", "nan", "inf", "-1", "0,5", "1.0.0", "abc", "--1", "1_0", ".5", "5."]
 PUNCT = ["(", ")", "( (", ") )", ",", "#", ":", "()", ""]
 
